@@ -748,7 +748,7 @@ func (e *Exec) mapArr(vals []Value, f func(ts []*Term) *Term) Value {
 		}
 		return f(ts)
 	case *SoAV:
-		n := &SoAV{F: make([]Value, len(x.F))}
+		n := &SoAV{F: make([]Value, len(x.F)), Str: x.Str}
 		for k := range x.F {
 			sub := make([]Value, len(vals))
 			for i, v := range vals {
